@@ -693,12 +693,23 @@ impl TransportManager {
             };
         }
 
-        self.transports
-            .get_mut(&supported_transport)
-            .ok_or(Error::TransportNotSupported(
+        let dial_result = match self.transports.get_mut(&supported_transport) {
+            Some(transport) => transport.dial(connection_id, address_record.address().clone()),
+            None => Err(Error::TransportNotSupported(
                 address_record.address().clone(),
-            ))?
-            .dial(connection_id, address_record.address().clone())?;
+            )),
+        };
+
+        if let Err(error) = dial_result {
+            // The dial was not started: release the peer from the `Dialing` state entered above,
+            // otherwise all future dials to the peer are reported as already in progress.
+            if let Some(context) = self.peers.write().get_mut(&remote_peer_id) {
+                context.state.on_dial_failure(connection_id);
+            }
+
+            return Err(error);
+        }
+
         self.pending_connections.insert(connection_id, remote_peer_id);
 
         Ok(())
